@@ -13,7 +13,7 @@ use rosu_map::Beatmap;
 use std::sync::mpsc;
 use std::time::{Duration, Instant};
 
-pub const RULE: &str = "byte strings: uniform noise, grammar-generated .osu text (levels 0-2, hostile numerics), byte/line/field mutations, splices and truncations of the bundled maps, BOM/UTF-16 variants, every byte string of length <= 2 (thorough: <= 3) over the BOM/line-feed alphabet, files whose string-valued fields (file names, metadata, colour names, sample files, headers) carry multi-byte characters at every offset from their end; each under a watchdog (no return within 15 s = hang) through all nine decoder types (from_bytes) and, for Beatmap, re-encoded; non-trivial = at least one section header recognised and at least 5 lines; distinct = distinct byte strings";
+pub const RULE: &str = "byte strings: uniform noise, grammar-generated .osu text (levels 0-2, hostile numerics), byte/line/field mutations, splices and truncations of the bundled maps, BOM/UTF-16 variants, every byte string of length <= 2 (thorough: <= 3) over the BOM/line-feed alphabet, files whose string-valued fields (file names, metadata, colour names, sample files, headers) carry multi-byte characters at every offset from their end, maps of 22-71 objects whose start/end times lie within 8 ulps of each other in any file order; each under a watchdog (no return within 15 s = hang) through all nine decoder types (from_bytes) and, for Beatmap, re-encoded; non-trivial = at least one section header recognised and at least 5 lines; distinct = distinct byte strings";
 
 fn hex(bytes: &[u8]) -> String {
     let mut s = String::with_capacity(bytes.len() * 2);
@@ -404,6 +404,28 @@ pub fn inputs(tier: &str, seed: u64, mut f: impl FnMut(&[u8], &str)) {
         let text = unicode_fields_file(&mut r);
         let enc = if i % 6 == 5 { 2 } else { 0 };
         f(&gen_osu::encode_as(&text, enc), "unicode-fields");
+    }
+    // 7. many objects whose start and end times lie within a few ulps of each other, in any
+    //    file order (orderings, deduplication and tolerance comparisons over near-equal times)
+    for i in 0..40 * scale {
+        let base = *r.pick(&[0.0f64, 0.5, 0.25, 0.001, 1.0, 0.9999999999999999, 1000.0]);
+        let n = 22 + r.below(50);
+        let near = |r: &mut Rng, b: f64| -> f64 {
+            let k = r.below(8) as u64;
+            f64::from_bits(b.to_bits() + k)
+        };
+        let mut text = format!("osu file format v14\n\n[General]\nMode:{}\n\n[TimingPoints]\n0,500,4,2,1,60,1,0\n\n[HitObjects]\n", if i % 4 == 3 { 3 } else { 0 });
+        for _ in 0..n {
+            let start = if r.below(3) == 0 { near(&mut r, base) } else { 0.0 };
+            let eb = if r.below(4) == 0 { base * 2.0 } else { base };
+            let end = near(&mut r, eb);
+            match r.below(4) {
+                0 => text.push_str(&format!("256,192,{:?},1,{}\n", end, r.below(16))),
+                1 => text.push_str(&format!("64,192,{:?},128,{},{:?}:0:0:0:0:\n", start, r.below(16), end)),
+                _ => text.push_str(&format!("256,192,{:?},12,{},{:?}\n", start, r.below(16), end)),
+            }
+        }
+        f(text.as_bytes(), "ulp-cluster");
     }
 }
 
